@@ -320,8 +320,20 @@ def batch_stops(c: int, mx: int) -> bool:
     # the batch/search runners stop at the step limit or at completion, whichever comes first
     hx.begin()
     which = hx.P['which']
+    procs = hx.P.get('procs', 1)
+    from vf.stubs import FakePool
+    saved_pool = B.Pool
+    B.Pool = FakePool                       # (only used when procs > 1: the step limit must reach the workers too)
+    FakePool.order = [0, 0, 0]
+    try:
+        return _batch_stops(c, mx, which, procs)
+    finally:
+        B.Pool = saved_pool
+
+
+def _batch_stops(c, mx, which, procs):
     if which == 'batch':
-        res = B.batch_run(BM, {"c": c}, collectors="rec", processes=1, max_timesteps=mx)       # (public entry point)
+        res = B.batch_run(BM, {"c": c}, collectors="rec", processes=procs, max_timesteps=mx)       # (public entry point)
         if len(res) != 1:
             return hx.end(hx.fail("one execution, one result", got=len(res)))
         recs = res[0]
@@ -330,7 +342,7 @@ def batch_stops(c: int, mx: int) -> bool:
             return hx.end(hx.fail("records of a batch run", got=recs, exp=list(range(steps_expected))))
     else:
         del _LAST[:]
-        best, results = B.grid_search(BM, {"c": c}, _score, processes=1, repetitions=1, max_timesteps=mx)   # (public entry point)
+        best, results = B.grid_search(BM, {"c": c}, _score, processes=procs, repetitions=1, max_timesteps=mx)   # (public entry point)
         if len(results) != 1 or len(_LAST) != 1:
             return hx.end(hx.fail("one combination, one execution", results=len(results), executions=len(_LAST)))
         out = results[0]
@@ -376,7 +388,7 @@ def obligations(tier):
           timeout=300, group=3, encoded=enc + (SystemManager.add_system, SystemManager.remove_system),
           bounds={"n": "0,2,3", "requests": ",".join(reqs)}),
         X("two_later_requests", two_later_requests, labels=("done",), timeout=600, encoded=enc),
-        X("batch_stops", batch_stops, parts=[{"which": w, "N": N} for w in ("batch", "search")],
+        X("batch_stops", batch_stops, parts=[{"which": w, "N": N} for w in ("batch", "search")] + [{"which": w, "N": N, "procs": 2} for w in ("batch", "search")],
           labels=("completed_first", "limit_first"), timeout=600,
           encoded=(B.batch_run, B.grid_search), bounds={"completion time, step limit": "0..%d" % N}),
     ]
